@@ -6,7 +6,7 @@
 From Coq Require Import String.
 From Aelys Require Import Extracted.ValueConsts Extracted.Opcodes Model.Value Model.VmArith Proofs.FoldVmProofs.
 From Aelys Require Import Base.Tactics Model.Lang Model.Eval Extracted.OptConsts Model.Opt.Fold
-  Model.PureEval Proofs.EvalProofs Proofs.FoldProofs Proofs.PureProofs.
+  Model.PureEval Proofs.EvalProofs Proofs.FoldProofs Proofs.PureProofs Proofs.EvalMono Proofs.FoldEvalProofs.
 Local Open Scope Z_scope.
 
 (* whenever the folder replaces `a op b` by a literal, that literal is exactly the value the
@@ -72,6 +72,37 @@ Theorem C01_fold_expr_preserves_eval : forall (e : expr) fuel depth env st,
   pure e = true -> (esize e <= fuel)%nat ->
   eval_expr fuel depth env st (fold_expr e) = eval_expr fuel depth env st e.
 Proof. exact fold_expr_preserves_eval. Qed.
+
+(* WHOLE PROGRAMS.  For every program that creates no function values (no lambda, no fn
+   declaration; member access only as a method-call callee) -- loops, blocks, shadowing,
+   assignments, arrays and vecs, prints, calls of closures already in the state -- the folded
+   program has the same outcome as the original: same class, same printed output, same final
+   value, from the same final state, for every fuel with which the original gives an answer. *)
+Theorem C01_fold_program_preserves : forall (fuel : nat) (p : program),
+  forallb nofun_s p = true ->
+  oc_class (run_program fuel p) <> OcFuel ->
+  run_program fuel (fold_program p) = run_program fuel p.
+Proof. exact fold_program_preserves. Qed.
+
+(* the statement-level simulation behind it, for all ten mutually recursive evaluator functions *)
+Theorem C01_fold_simulation : forall f : nat, foldok f.
+Proof. exact foldok_all. Qed.
+
+(* and the evaluator is monotone in its fuel: an answer, once given, is the answer *)
+Theorem C01_eval_fuel_monotone : forall f : nat, mono f.
+Proof. exact mono_all. Qed.
+
+Example C01_fold_program_nonvacuous :
+  let p := [SLet "t" true (EInt 0);
+            SFor "i" (EBin BAdd (EInt 1) (EInt 1)) (EBin BMul (EInt 2) (EInt 3)) false None
+              (SBlock [SExpr (EAssign "t" (EBin BAdd (EVar "t") (EBin BMul (EVar "i") (EBin BSub (EInt 10) (EInt 7)))));
+                       SIf (EAnd (EBool true) (EBin BLt (EVar "i") (EInt 4)))
+                           (SBlock [SExpr (ECall (EVar "println") [EVar "t"])]) None]);
+            SExpr (EVar "t")] in
+  forallb nofun_s p = true /\ fold_program p <> p
+  /\ run_program 200 p = mkOutcome OcOk (sb [54; 10; 49; 53; 10]%nat) "42"
+  /\ run_program 200 (fold_program p) = run_program 200 p.
+Proof. vm_compute. repeat split; try reflexivity. discriminate. Qed.
 
 (* constant propagation kernel: replacing variables by the literals they are bound to is
    meaning-preserving exactly when the constant table agrees with the environment ... *)
